@@ -394,6 +394,8 @@ class TransportRefsContainer(RefsContainer):
             realname = realnames[-1]
         except (KeyError, IndexError, SymrefLoop):
             realname = name
+        if old_ref is not None and self._current_ref_value(realname) != old_ref:
+            return False
         if realname == b"HEAD":
             transport = self.worktree_transport
         else:
@@ -401,6 +403,15 @@ class TransportRefsContainer(RefsContainer):
             self._ensure_dir_exists(urlutils.quote_from_bytes(realname))
         transport.put_bytes(urlutils.quote_from_bytes(realname), new_ref + b"\n")
         return True
+
+    def _current_ref_value(self, name):
+        """Return the value currently stored for name (loose, then packed)."""
+        from dulwich.protocol import ZERO_SHA
+
+        value = self.read_loose_ref(name)
+        if value is None:
+            value = self.get_packed_refs().get(name, ZERO_SHA)
+        return value
 
     def add_if_new(self, name, ref):
         """Add a new reference only if it does not already exist.
@@ -440,6 +451,8 @@ class TransportRefsContainer(RefsContainer):
         :return: True if the delete was successful, False otherwise.
         """
         self._check_refname(name)
+        if old_ref is not None and self._current_ref_value(name) != old_ref:
+            return False
         # may only be packed
         transport = self.worktree_transport if name == b"HEAD" else self.transport
         with contextlib.suppress(NoSuchFile):
